@@ -224,6 +224,13 @@ func (e *Exec) binop(fr *Frame, in ssa.Instruction, op token.Token, t types.Type
 		}
 		panic(unsupported("string op " + op.String()))
 	}
+	if pi, ok := x.(*PtrInt); ok {
+		// noescape idiom: uintptr(p) ^ 0
+		if t, ok := y.(*smt.Term); ok && t.IsConst() && t.K == 0 && (op == token.XOR || op == token.ADD || op == token.OR) {
+			return pi
+		}
+		panic(unsupported("arithmetic on pointer value"))
+	}
 	a := e.term(x)
 	if op == token.SHL || op == token.SHR {
 		b := e.term(y)
@@ -305,7 +312,13 @@ func (e *Exec) conv(fr *Frame, in ssa.Instruction, to, from types.Type, x Value)
 	switch tt := ut.(type) {
 	case *types.Basic:
 		if tt.Kind() == types.UnsafePointer {
+			if pi, ok := x.(*PtrInt); ok {
+				return pi.P
+			}
 			return x
+		}
+		if pi, ok := x.(*PtrInt); ok {
+			return pi
 		}
 		if tt.Info()&types.IsString != 0 {
 			switch ff := uf.(type) {
@@ -353,7 +366,7 @@ func (e *Exec) conv(fr *Frame, in ssa.Instruction, to, from types.Type, x Value)
 			if p == nil {
 				return c.Const(ts, 0)
 			}
-			return &Poison{Why: "pointer converted to integer"}
+			return &PtrInt{P: p}
 		}
 		a := e.term(x)
 		switch {
@@ -943,6 +956,52 @@ func (e *Exec) callBuiltin(th *Thread, caller *Frame, site ssa.Instruction, b *s
 			panic(unsupported("clear of non-map"))
 		}
 		return nil
+	case "SliceData":
+		sv := args[0].(SliceV)
+		if sv.Base == nil {
+			return (*Pointer)(nil)
+		}
+		return &Pointer{Arr: sv.Base, Idx: sv.Off, Tag: "slicedata"}
+	case "String":
+		p, _ := args[0].(*Pointer)
+		n, ok := e.constInt(args[1])
+		if !ok {
+			panic(unsupported("unsafe.String with symbolic length"))
+		}
+		if n == 0 || p == nil {
+			return ""
+		}
+		if p.Arr == nil || !p.Idx.IsConst() {
+			panic(unsupported("unsafe.String of non-slice pointer"))
+		}
+		bs := make([]*smt.Term, n)
+		for i := range bs {
+			bs[i] = e.term(e.loadElem(caller, site, p.Arr, e.mkInt(p.Idx.Int64()+int64(i))))
+		}
+		return e.normStr(bs)
+	case "StringData":
+		bs, _ := e.strBytes(args[0])
+		if len(bs) == 0 {
+			return (*Pointer)(nil)
+		}
+		sv := e.newSlice(types.Typ[types.Uint8], len(bs), len(bs))
+		for i, b := range bs {
+			sv.Base.Elems[i] = b
+		}
+		return &Pointer{Arr: sv.Base, Idx: e.mkInt(0), Tag: "slicedata"}
+	case "Slice":
+		p, _ := args[0].(*Pointer)
+		n, ok := e.constInt(args[1])
+		if !ok {
+			panic(unsupported("unsafe.Slice with symbolic length"))
+		}
+		if p == nil {
+			return SliceV{}
+		}
+		if p.Arr != nil && p.Idx.IsConst() {
+			return SliceV{Base: p.Arr, Off: p.Idx, Len: e.mkInt(n), Cap: e.mkInt(n)}
+		}
+		panic(unsupported("unsafe.Slice of non-slice pointer"))
 	case "ssa:wrapnilchk":
 		p, _ := args[0].(*Pointer)
 		if p == nil {
